@@ -114,6 +114,8 @@ func drive(prop string, r *rand.Rand, w *writer, n int) {
 		driveMink(r, w, n)
 	case "C07":
 		driveDvi(r, w, n)
+	case "C13":
+		driveMag(r, w, n)
 	case "C04":
 		driveTree(r, w, n)
 	case "C09":
@@ -206,6 +208,15 @@ func reexec(b []byte, w *writer) {
 			fatal(err)
 		}
 		execDvi(&e, dviIn{a: bToDec(e.A), b: bToDec(e.B)})
+		w.emit(&e)
+	case "MagGroup":
+		var e MagEv
+		if err := json.Unmarshal(b, &e); err != nil {
+			fatal(err)
+		}
+		old := e.Probes
+		execMag(r, &e)
+		e.Probes = mergeProbes(e.Probes, old)
 		w.emit(&e)
 	case "TreeOp":
 		var e TreeEv
